@@ -69,7 +69,10 @@ impl Req {
     /// factor 1 - ratio would be negative, a configuration the drivers do not generate.
     pub fn sane(&self) -> Req {
         let mut r = self.clone();
-        if r.kt_start > 0. && r.kt_ratio.map(|x| x > 1.).unwrap_or(false) {
+        if r.kt_start > 0. && r.kt_ratio.map(|x| x > 1. || x < 0.).unwrap_or(false) {
+            // (a negative ratio heats: the factor 1 - ratio as such is checked on the builder,
+            // spec/Builder.tla; recorded runs keep to cooling schedules, whose windows the trace
+            // specification knows)
             r.kt_ratio = Some(0.5);
         }
         r
